@@ -58,10 +58,11 @@ def gen(seed, tier="quick"):
     mode = r.choice(["sync", "async"])
     conc = mode == "async" and r.random() < 0.7
     w = r.choice([2, 4, 8, 16]) * U
-    cfg = {"max_attempts": r.choice([2, 3, 4, 5]), "deadline_us": 3_600_000_000, "max_unknown": None, "per_class": {},
+    cfg = {"max_attempts": r.choice([2, 3, 4, 5]), "deadline_us": r.choice([3_600_000_000, 3_600_000_000, 16 * U, 64 * U]), "max_unknown": None, "per_class": {},
            "default": "ctx", "table": {}, "cls_shape": "enum", "result_classifier": r.random() < 0.3,
            "budget": {"max": r.choice([0, 1, 2, 3, 4]), "window_us": w}, "breaker": None}
     calls = []
+    handler = r.random() < 0.25
     for i in range(r.randint(2, 4)):
         entry = r.choice(["Retry", "Policy", "RetryPolicy", "Retry.from_config", "decorator"])
         how = "call" if entry == "decorator" else r.choice(["call", "execute"])
@@ -72,15 +73,17 @@ def gen(seed, tier="quick"):
             else:
                 atts.append({"kind": "res" if cfg["result_classifier"] and r.random() < 0.3 else "exc",
                              "cls": r.choice(["TRANSIENT", "SERVER_ERROR", "RATE_LIMIT", "CONCURRENCY"]), "dur": r.choice([0, U, 2 * U])})
-        c = {"entry": entry, "how": how, "attempts": atts, "values": [r.choice([0, U, 2 * U, w, w - U, w // 2]) for _ in range(3)],
+        c = {"entry": entry, "how": how, "attempts": atts, "values": [r.choice([0, U, 2 * U, w, w - U, w // 2, 10**10]) for _ in range(3)],
              "overshoot": [0], "decisions": [], "abort_at": None}
+        if handler:
+            c["decisions"] = ["S"] * r.randint(0, 2) + [r.choice(["D", "S", "S"])]
         if conc:
             c["start_us"] = r.choice([0, 0, U, 2 * U, w])
         else:
             c["before"] = [["adv", r.choice([0, U, w, w - U, w // 2])]]
         calls.append(c)
     scn = {"kind": "retry", "grid": U, "seed": seed, "mode": mode, "entry": "Retry", "how": "call", "cfg": cfg,
-           "place": {"handler": "none", "before_sleep": "none", "sleeper": r.choice(["policy", "none"]), "att_hooks": "none"},
+           "place": {"handler": "policy" if handler else "none", "before_sleep": "none", "sleeper": r.choice(["policy", "none"]), "att_hooks": "none"},
            "hooks": {"on_metric": True, "on_log": False, "operation": "op", "timeline": None, "abort_if": False},
            "clock": {"base_us": r.choice([0, 8 * U])}, "calls": calls}
     if conc:
